@@ -282,6 +282,68 @@ def timeFromExcelTime (excelTime : Rat) (date1904 : Bool) : Int :=
     let date := date + wholeDaysPart * nsPerDay + durationPart
     if (date % nsPerSec) / 1000000 > 500 then roundSecond date else truncSecond date
 
+/-! ### float-level decoder: every float64 operation of `timeFromExcelTime` explicit -/
+
+/-- the further float64 operations the decoder uses: subtraction, multiplication, constants
+(converted by the Go compiler: nearest float64 to the exact value), float→int conversion
+(truncation toward zero), comparisons -/
+structure FloatOps2 (F : Type) extends FloatOps F where
+  sub : F → F → F
+  mul : F → F → F
+  const : Rat → F
+  trunc : F → Int
+  lt : F → F → Bool
+  le : F → F → Bool
+
+/-- `math.Modf` -/
+def modfF {F : Type} (ops : FloatOps2 F) (x : F) : F × F :=
+  (ops.ofInt (ops.trunc x), ops.sub x (ops.ofInt (ops.trunc x)))
+
+/-- `shiftJulianToNoon` -/
+def shiftJulianToNoonF {F : Type} (ops : FloatOps2 F) (julianDays julianFraction : F) : F × F :=
+  if ops.lt (ops.const (-half)) julianFraction && ops.lt julianFraction (ops.const half) then
+    (julianDays, ops.add julianFraction (ops.const half))
+  else if ops.le (ops.const half) julianFraction then
+    (ops.add julianDays (ops.ofInt 1), ops.sub julianFraction (ops.const half))
+  else if ops.le julianFraction (ops.const (-half)) then
+    (ops.sub julianDays (ops.ofInt 1), ops.add julianFraction (ops.const (3 * half)))
+  else (julianDays, julianFraction)
+
+/-- `fractionOfADay` -/
+def fractionOfADayF {F : Type} (ops : FloatOps2 F) (fraction : F) : Int × Int × Int × Int :=
+  let frac := ops.trunc (ops.add (ops.mul (ops.ofInt c1day) fraction) (ops.const ((c1us : Rat) / 2)))
+  let nanoseconds := ((frac.tmod c1s).tdiv c1us) * c1us
+  let frac := frac.tdiv c1s
+  let seconds := frac.tmod 60
+  let frac := frac.tdiv 60
+  let minutes := frac.tmod 60
+  let hours := frac.tdiv 60
+  (hours, minutes, seconds, nanoseconds)
+
+/-- `julianDateToGregorianTime` -/
+def julianDateToGregorianTimeF {F : Type} (ops : FloatOps2 F) (part1 part2 : F) : Int :=
+  let p1 := modfF ops part1
+  let p2 := modfF ops part2
+  let sh := shiftJulianToNoonF ops (ops.add p1.1 p2.1) (ops.add p1.2 p2.2)
+  let dmy := fliegel (ops.trunc sh.1)
+  let hms := fractionOfADayF ops sh.2
+  instantOf { y := dmy.2.2, m := dmy.2.1, d := dmy.1, h := hms.1, mi := hms.2.1, s := hms.2.2.1, ns := hms.2.2.2 }
+
+/-- `timeFromExcelTime` with every float64 operation explicit, generic in the carrier: instantiated
+with `Float` in the driver (op `decf`, compared with Go on arbitrary floats) and with rounded
+rationals in the proofs (`Lemmas/DateFloatDec.lean`) -/
+def timeFromExcelTimeF {F : Type} (ops : FloatOps2 F) (excelTime : F) (date1904 : Bool) : Int :=
+  let wholeDaysPart := ops.trunc excelTime
+  if wholeDaysPart ≤ 61 then
+    if date1904 then julianDateToGregorianTimeF ops (ops.const mjd0) (ops.add excelTime (ops.ofInt offset1904))
+    else julianDateToGregorianTimeF ops (ops.const mjd0) (ops.add excelTime (ops.ofInt offset1900))
+  else
+    let floatPart := ops.add (ops.sub excelTime (ops.ofInt wholeDaysPart)) (ops.const roundEpsilon)
+    let date := if date1904 then epoch1904 else epoch1900
+    let durationPart := ops.trunc (ops.mul (ops.ofInt nanosInADay) floatPart)
+    let date := date + wholeDaysPart * nsPerDay + durationPart
+    if (date % nsPerSec) / 1000000 > 500 then roundSecond date else truncSecond date
+
 /-- `ExcelDateToTime` -/
 def excelDateToTime (excelDate : Rat) (use1904 : Bool) : Except Unit Int :=
   if excelDate < 0 then .error () else .ok (timeFromExcelTime excelDate use1904)
